@@ -81,6 +81,9 @@ def run(ctx):
     from . import evaltables
     d_fresh = evaltables.rule_application(ctx, "C03-fresh-frame", {"frame", "bind"})
     evaltables.rule_trampoline(ctx, "C03-fresh-frame", {"frame"})       # self tail calls: each turn has its own frame
+    ctx.rule("C03-closure-identity", "closures made by different evaluations of one lambda expression are different procedures: a tail "
+                                     "call between them runs the callee under the environment the callee captured")
+    evaltables.rule_trampoline(ctx, "C03-closure-identity", {"closure-env"})
     evaltables.rule_assignment(ctx, "C03-set-in-place")
     # closures share a binding only if each captures the very frame it was created in (also a frame that binds nothing yet)
     ctx.rule("C03-closure-frame", "a closure captures the frame it is created in, by reference: a frame without parent, a frame that binds "
